@@ -4,13 +4,14 @@ CONSTANTS
   Home <- MCHome
   InitSeq <- MCInit
   InitTok <- MCInitTok
+  InitRaw = {}
   HasLF0 = TRUE
   HasAT0 = FALSE
   Slack = 2
   FU = 2
   Ver = 1
   MaxCalls = 4
-  MCToks = {"t1", "t2"}
+  MCToks = {"t1"}
 SPECIFICATION MCSpec
 INVARIANT SlotType TableInv ProbeBounded TablesDisjointFromData NoDamage ListfileExact AbsClean
 PROPERTY AbsSpec OpRefines AtomicRefines
